@@ -132,8 +132,13 @@ func Discharge(obls []*Obligation, opts SolveOpts, workers int, wantModels bool)
 		asserts := append([]*Term(nil), o.Asserts...)
 		goal := o.Goal
 		if o.Region != nil {
-			// known finding: prove the obligation outside the recorded failing region
-			asserts = append(asserts, tb.Not(o.Region))
+			// known finding: prove the obligation outside the recorded failing region, and (when the finding
+			// records what the code does there) the recorded behaviour inside it
+			if o.Observed != nil {
+				goal = tb.And(tb.Implies(tb.Not(o.Region), goal), tb.Implies(o.Region, o.Observed))
+			} else {
+				asserts = append(asserts, tb.Not(o.Region))
+			}
 		}
 		asserts = append(asserts, tb.Not(goal))
 		var mq *modelQuery
